@@ -59,7 +59,6 @@ type Seen struct {
 	Body       []byte
 	Trailer    http.Header
 	Close      bool
-	Head       bool // the response answers a HEAD request
 }
 
 // Rec wraps the real processor, recording every callback.
@@ -80,9 +79,6 @@ type Rec struct {
 	// FramingRule when the parser reports OnContentLength (i.e. has accepted the framing metadata)
 	curHdrs   [][2]string
 	curCode   int // status code of the response under construction (0: a request)
-	Heads     []bool // client: script — does the k-th response answer a HEAD request (default false)
-	respNo    int    // client: number of response header sections read
-	curHead   bool   // the response under construction answers a HEAD request
 	pendingTr string   // trailer-rule verdict to be raised by the next callback after OnContentLength
 	Framing   []string // violations found (drained by the executor)
 }
@@ -162,28 +158,6 @@ func (r *Rec) raiseTrailer() {
 
 func Hx(s string) string { return lp.Hex([]byte(s)) }
 
-// ParseHeads reads a head script token "h=0110" ("" / "h=" = none).
-func ParseHeads(tok string) []bool {
-	var hs []bool
-	for _, c := range strings.TrimPrefix(tok, "h=") {
-		hs = append(hs, c == '1')
-	}
-	return hs
-}
-
-func HeadsString(hs []bool) string {
-	var sb strings.Builder
-	sb.WriteString("h=")
-	for _, h := range hs {
-		if h {
-			sb.WriteByte('1')
-		} else {
-			sb.WriteByte('0')
-		}
-	}
-	return sb.String()
-}
-
 func (r *Rec) OnMethod(p *nbhttp.Parser, m string) {
 	r.Evs = append(r.Evs, "method "+Hx(m))
 	r.Inner.OnMethod(p, m)
@@ -223,10 +197,6 @@ func (r *Rec) OnContentLength(p *nbhttp.Parser, n int) {
 		// RFC 7230 3.3.3 rule 1: no body, hence no trailer section, whatever the (still validated) framing fields say
 		want, rejTr = 0, ""
 	}
-	if r.curHead {
-		// the reply to HEAD: no body and no trailer section either, the announced length is still reported
-		rejTr = ""
-	}
 	r.curCode = 0
 	if rej != "" {
 		r.Framing = append(r.Framing, "accepted although "+rej)
@@ -262,25 +232,7 @@ func (r *Rec) OnComplete(p *nbhttp.Parser) {
 	r.Held = 0
 	r.DoneAt = append(r.DoneAt, r.Fed)
 	r.Inner.OnComplete(p)
-	r.curHead = false
 }
-// ResponseToHead is asked by the parser once per response header section, before OnContentLength. The answer comes
-// from the real ClientProcessor (hence from the real ClientConn queue, filled through the VerifPushHead hook); the
-// script is kept alongside for the framing twin and checked against the answer.
-func (r *Rec) ResponseToHead() bool {
-	want := r.respNo < len(r.Heads) && r.Heads[r.respNo]
-	r.respNo++
-	got := false
-	if h, ok := r.Inner.(interface{ ResponseToHead() bool }); ok {
-		got = h.ResponseToHead()
-	}
-	if got != want {
-		r.Framing = append(r.Framing, fmt.Sprintf("response %d: the client connection says HEAD=%v, the requests sent say %v", r.respNo-1, got, want))
-	}
-	r.curHead = got
-	return got
-}
-
 func (r *Rec) Close(p *nbhttp.Parser, err error) { r.Inner.Clean(p) }
 func (r *Rec) Clean(p *nbhttp.Parser)            { r.Inner.Clean(p) }
 
@@ -366,24 +318,18 @@ type Sess struct {
 	R       *Rec
 	Conn    *FakeConn
 	Engine  *nbhttp.Engine
-	Heads   []bool
 }
 
-// NewSess: heads (client only) tells for each response in turn whether it answers a HEAD request.
-func NewSess(client bool, maxBody, limit int, heads ...bool) *Sess {
+func NewSess(client bool, maxBody, limit int) *Sess {
 	engine := nbhttp.NewEngine(nbhttp.Config{ReadLimit: limit, MaxHTTPBodySize: maxBody})
 	if limit == 0 {
 		engine.ReadLimit = 0
 	}
-	s := &Sess{Client: client, MaxBody: maxBody, Limit: limit, Engine: engine, Conn: &FakeConn{}, Heads: heads}
-	r := &Rec{Heads: heads}
+	s := &Sess{Client: client, MaxBody: maxBody, Limit: limit, Engine: engine, Conn: &FakeConn{}}
+	r := &Rec{}
 	s.R = r
 	if client {
-		cc := &nbhttp.ClientConn{Engine: engine}
-		for _, h := range heads {
-			nbhttp.VerifPushHead(cc, h)
-		}
-		r.Inner = nbhttp.NewClientProcessor(cc, func(res *http.Response, err error) {
+		r.Inner = nbhttp.NewClientProcessor(nil, func(res *http.Response, err error) {
 			if err != nil || res == nil {
 				r.Msgs = append(r.Msgs, "res-err")
 				return
@@ -395,7 +341,7 @@ func NewSess(client bool, maxBody, limit int, heads ...bool) *Sess {
 			r.Msgs = append(r.Msgs, fmt.Sprintf("res{%s|%d|%s|%s|cl%d|%d:%x|%s}", Hx(res.Proto), res.StatusCode, Hx(res.Status),
 				HdrString(res.Header), res.ContentLength, len(b), lp.Fnv(b), HdrString(res.Trailer)))
 			r.Seen = append(r.Seen, Seen{IsResp: true, Proto: res.Proto, StatusCode: res.StatusCode, Status: res.Status,
-				Header: cloneHeader(res.Header), CL: res.ContentLength, Body: b, Trailer: cloneHeader(res.Trailer), Head: r.curHead})
+				Header: cloneHeader(res.Header), CL: res.ContentLength, Body: b, Trailer: cloneHeader(res.Trailer)})
 		})
 	} else {
 		r.Inner = nbhttp.NewServerProcessor()
